@@ -672,6 +672,10 @@ func main() {
 	t0 := time.Now()
 	phases, rule := space(r.Thorough(), r.Seed)
 	enumTime := time.Since(t0)
+	// key-type family first (cheap): keyed operators over every built-in key type
+	setChunk(refeval.Chunk)
+	kt := runKeyTypes(r, 2*time.Minute, workers)
+	atomic.AddInt64(&c.st.evaluations, kt.Cases)
 	var perPhase []int64
 	for i, ph := range phases {
 		setChunk(ph.chunk)
@@ -707,7 +711,7 @@ func main() {
 	r.Finish(ev.Coverage{
 		"evaluations":               c.st.evaluations,
 		"distinct_nontrivial":       c.nontrivial.Distinct(),
-		"rule":                      strings.Join(rule, "; ") + ". Non-trivial = distinct program (incl. data and shard counts) that contains >=1 shuffle and produced >=1 row.",
+		"rule":                      strings.Join(rule, "; ") + "; (k) key-type family: " + kt.Rule + ". Non-trivial = distinct program (incl. data and shard counts) that contains >=1 shuffle and produced >=1 row.",
 		"distinct_programs":         c.programs.Distinct(),
 		"distinct_result_multisets": c.results.Distinct(),
 		"runs_cluster":              c.st.clusterRuns,
@@ -726,6 +730,7 @@ func main() {
 		"runs_per_source":           perSrc,
 		"failing_runs_by_signature": failed,
 		"micros_per_last_operator":  c.opMicros.m,
+		"key_type_family":           kt,
 		"enumeration_s":             enumTime.Seconds(),
 		"workers":                   workers,
 	})
